@@ -179,9 +179,10 @@ def main(argv):
         b = binfo.get("bridge")
         coverage_extra["bridge_theorem"] = {
             "statement": "∀ d, renderNoop d = (genFile d).map printFile  (the regenerated template, interpreted, "
-                         "prints what the structured model prints; Moq.bridge, Moq.bridge_file)",
+                         "prints what the structured model prints; Moq.bridge, Moq.bridge_file; Moq.bridge_bodies: every method body "
+                         "of that file is genBody/genCallsBody/genResetBody, the Stmt lists of the C03-C08 theorems)",
             "proved_on_this_tree": b is True,
-            "axioms": {t: ax_of(t) for t in ("bridge", "bridge_file")} if b is True else None,
+            "axioms": {t: ax_of(t) for t in ("bridge", "bridge_file", "bridge_bodies")} if b is True else None,
             "if_not": None if b is True else ("soft obligation: %s; the per-input comparison gf=eq is the tie" % str(b)[:300])}
     samples = []
     disagreements = []
